@@ -222,6 +222,15 @@ def run(chk, prog):
         chk.finding("SID", rv.key, "key-mismatch", "", "%s:%s" % (rv.file, rv.line),
                     "reverse UDP listener uses different keys for session lookup, registration and cleanup")
 
+    # ---------------------------------------------------------------- FRAG: a datagram larger than one QUIC packet is cut into exactly the
+    # announced number of pieces, each within the packet budget (otherwise the peer never completes it and the datagram is lost)
+    from . import anchors
+    for a in ("fragment_count_ceil", "make_fragments_next_shape", "mtu_guard"):
+        ok, d = anchors.check(prog, a)
+        chk.instance("FRAG", "src/common/fragment.rs", "anchor %s" % a, ok, d)
+        if not ok:
+            chk.finding("FRAG", "common::fragment", a, "", "src/common/fragment.rs", d)
+
 
 def select_branch_reads(prog, f, recv_call):
     """the future of `recv_call` is polled by a select!; its branch output must be bound and read in f"""
